@@ -54,6 +54,7 @@ let run (c : string) (obs : string) : string * string * string =
     let ops = List.filter (fun o -> words o <> []) (String.split_on_char ';' body) in
     let vis_stop v = (iz v) mod 7 <> !stop in
     let vis_all _ = true in
+    let vis_stop2 v = (iz v) mod 7 <> (!stop + 3) mod 7 in
     let t = ref (Some E) in
     let spec = ref [] in     (* (key, value) list in order *)
     let errs = ref [] in
@@ -103,7 +104,8 @@ let run (c : string) (obs : string) : string * string * string =
             let suffix = List.map snd (List.filter (fun (k', _) -> k' >= k) !spec) in
             if il (List.nth ges i) <> visit suffix then add "kind=traverse-starting-at";
             let prefix = List.rev (List.map snd (List.filter (fun (k', _) -> k' <= k) !spec)) in
-            if il (List.nth les i) <> prefix then add "kind=reverse-traverse-starting-at") !probes;
+            let rec visit2 l = match l with [] -> [] | v :: r -> if v mod 7 <> (!stop + 3) mod 7 then v :: visit2 r else [v] in
+            if il (List.nth les i) <> visit2 prefix then add "kind=reverse-traverse-starting-at") !probes;
           (* balance: the implementation's own shape must satisfy the red-black invariants *)
           let shape = parse_dump (get1 "d=") in
           if not (rb shape) || not (isBlack shape) then add "kind=red-black-invariant";
@@ -126,7 +128,7 @@ let run (c : string) (obs : string) : string * string * string =
         List.iter (fun k ->
           Buffer.add_string buf (Printf.sprintf " g=%s ge=%s le=%s"
             (match get zcmp x (zi k) with Some v -> string_of_int (iz v) | None -> ".")
-            (zs (fst (trav_ge zcmp x (zi k) vis_stop))) (zs (fst (trav_le zcmp x (zi k) vis_all))))) !probes;
+            (zs (fst (trav_ge zcmp x (zi k) vis_stop))) (zs (fst (trav_le zcmp x (zi k) vis_stop2))))) !probes;
         Buffer.contents buf) ops in
     let verdict = if !errs = [] then "ok" else "FAIL " ^ String.concat "," (List.rev !errs) in
     let cls = if List.length ops < 3 then "short-trivial" else
